@@ -47,6 +47,15 @@ def prog_cases(seed, n, tier):
         part = r.choice(["initial", "initial", "always", "dynamic"])
         cases.append([("rule", part, ("tel", f), ()), ("rule", "always", ("choice", "b"), ())])
     cases += [gen.gen_head_prog(r, ATOMS, 3) for _ in range(n)]
+    # two rules whose head formulas are two spellings of one formula (telingo keys head formulas by representation)
+    for _ in range(24 if tier == "quick" else 300):
+        fa, fb = gen.alias_pair(r, ATOMS, head=True, depth=r.randint(0, 1))
+        if r.random() < 0.5:
+            fa, fb = fb, fa
+        part = r.choice(["initial", "initial", "always"])
+        cases.append([("rule", "initial", ("choice", "c", "d"), ()),
+                      ("rule", part, ("tel", fa), (("atom", "pos", "c", 0) if part == "initial" else ("init", "pos", "c"),)),
+                      ("rule", part, ("tel", fb), (("atom", "pos", "d", 0) if part == "initial" else ("init", "pos", "d"),))])
     # interactions: head atoms that are facts, several head formulas sharing a state, equal formulas written differently
     A = lambda x: ("a", x)
     cases += [
